@@ -77,13 +77,13 @@ def decl_cases(maxattrs):
                 if not attrs:
                     ents += ["x(3)", "a0, x, a2", "x = 1", "x(2) = [1, 2]"] if typ == "integer" and sel == "" else []
                     if typ == "character" and sel in ("", "(len=10)"):
-                        ents += ["x*5", "x(2)*5"]
+                        ents += ["x*5", "x(2)*5", "a0 = 'w!', x", "x = 'a!b'", 'a0 = "!", x']
                 for ent in ents:
                     for dcolon in ((True, False) if not attrs and "=" not in ent else (True,)):
                         for doc in (DOCS if (not attrs and ent == "x" and sel == "") else ("none", "pre", "trail", "post")):
                             yield ("var", typ, sel, attrs, ent, dcolon, doc)
     # parameters with values
-    for val in ["1", "2*(3+1)", "(1 + 2) * 3", "selected_int_kind(9)", "[1, 2, 3]", "'a(b'", "3.0d0**2"]:
+    for val in ["1", "2*(3+1)", "(1 + 2) * 3", "selected_int_kind(9)", "[1, 2, 3]", "'a(b'", "3.0d0**2", "'a!b'"]:
         typ = "character(len=3)" if val.startswith("'") else ("real(8)" if "d0" in val else "integer")
         ent = "x(3) = " + val if val.startswith("[") else "x = " + val
         for attrs in (("parameter",), ("parameter", "public"), ("private", "parameter")):
@@ -194,6 +194,23 @@ def _intent_norm(s):
     return s.replace("INTENT(INOUT)", "INTENT(IN OUT)".replace(" ", ""))
 
 
+def _several_entities(ent):
+    """Does the entity list declare more than one entity (commas outside parentheses, brackets and literals)?"""
+    depth, quote = 0, ""
+    for ch in ent:
+        if quote:
+            quote = "" if ch == quote else quote
+        elif ch in "'\"":
+            quote = ch
+        elif ch in "([":
+            depth += 1
+        elif ch in ")]":
+            depth -= 1
+        elif ch == "," and depth == 0:
+            return True
+    return False
+
+
 def decl_case(case, acc: Acc):
     text, ln, col, doc_lines = render_decl(case)
     sc = worker_scratch("c11")
@@ -235,7 +252,7 @@ def decl_case(case, acc: Acc):
     got_doc = re.sub(r"\s+", " ", h["docs"]).strip()
     want_doc = " ".join(doc_lines)
     # a comment on a statement that declares several entities is not attributable to one of them
-    if got_doc != want_doc and "," not in ent.split("=")[0].split("(")[0]:
+    if got_doc != want_doc and not _several_entities(ent):
         problems.append(("documentation", want_doc, got_doc))
     for what, w, g in problems:
         acc.violation(Violation("declarations", {**tags0, "obs": what}, cs, w, g, what=f"{case}: {what}: expected {w!r}, got {g!r}"))
